@@ -185,17 +185,28 @@ def gen_history(seed, tier, classes=None, weights=None, n_ops=(6, 16),
       op.update(pre=pre, pre_data=dk)
     ops.append(op)
     s = Sym(hid, name, dk, pre)
+    s.params = dict(p)
     syms.append(s)
     return s
 
   def fit_op(s, dk=None, regen=False):
     dk = dk or s.data
     D = _data(datasets[dk])
-    if regen or dk != s.data:
+    cur = getattr(s, "params", None)
+    data_free = (cur is not None and cur.get("n_components") is None and
+                 not any(isinstance(v, dict) for v in cur.values()) and
+                 s.name not in ("SDML", "SDML_Supervised", "RCA_Supervised") and
+                 feasible(s.name, cur, D))
+    if dk != s.data and not regen and data_free and r.random() < 0.4:
+      # hyper-parameters that do not depend on the data: refit on the other
+      # dataset (other size / dimensionality) without touching them
+      s.data = dk
+    elif regen or dk != s.data:
       p = params_for(s.name, r, D)
       if p is None:
         return
       ops.append(dict(op="set_params", h=s.hid, params=p))
+      s.params = dict(getattr(s, "params", {}) or {}, **p)
       s.data = dk
     via = "indices" if (s.pre and r.random() < 0.6) else "formed"
     op = dict(op="fit", h=s.hid, data=dk, via=via)
@@ -299,6 +310,7 @@ def gen_history(seed, tier, classes=None, weights=None, n_ops=(6, 16),
         hid = len(syms)
         ops.append(dict(op="clone", h=s.hid, h2=hid))
         s2 = Sym(hid, s.name, s.data, s.pre)
+        s2.params = dict(getattr(s, "params", {}) or {})
         syms.append(s2)
         if r.random() < 0.8:
           fit_op(s2)
